@@ -49,7 +49,7 @@ func firstMessages() []firstMsg {
 	var out []firstMsg
 	right := digest("pw1")
 	events := []any{abs, 0, 1, 2, "1"}
-	users := []any{abs, "op1", "nobody", "", 7}
+	users := []any{abs, "op1", "nobody", "", 7, "OP1", "op1 "}
 	subs := []any{abs, 1, 3, 4}
 	infos := []any{abs, nil, map[string]any{}, map[string]any{"User": "op1"}, map[string]any{"Password": right},
 		map[string]any{"Password": "00" + right[2:]}, map[string]any{"Password": 7}, map[string]any{"User": "op1", "Password": ""}, map[string]any{"User": "op1", "Password": right[:10]},
